@@ -11,6 +11,7 @@
   All theorems are for ALL inputs (coin lists, k, amounts, requests, call sequences).
 -/
 import MW.Lemmas.SelectPipeline
+import MW.Lemmas.SelectKLargest
 import MW.Lemmas.FeeLoop
 import MW.Lemmas.FeeComplete
 import MW.Lemmas.FeeManual
@@ -57,6 +58,26 @@ theorem topK_spec (k target : Nat) (coins : List Coin) :
     simp only [List.length_nil, Nat.add_zero] at hlen
     omega
   · omega
+
+/-- the same as amounts: sorted, the amounts kept are exactly the first k entries of the sorted amounts of
+    the coins not exceeding the target ("the k largest"; this is the spec column of the `topk` op) -/
+theorem topK_k_largest (k target : Nat) (coins : List Coin) :
+    let s := submitAll (newSel k target) coins
+    let low := coins.filter (fun c => decide (c.amt ≤ target))
+    MW.Lemmas.SelectKLargest.sortDescNat (s.base.toList.map (·.amt)) =
+      (MW.Lemmas.SelectKLargest.sortDescNat (low.map (·.amt))).take k := by
+  intro s low
+  obtain ⟨⟨rest, hperm, hbound⟩, hsize, _, _, _⟩ := topK_spec k target coins
+  apply MW.Lemmas.SelectKLargest.k_largest k _ (rest.map (·.amt))
+  · rw [← List.map_append]; exact hperm.map _
+  · intro r hr b hb
+    obtain ⟨r', hr', e1⟩ := List.mem_map.mp hr
+    obtain ⟨b', hb', e2⟩ := List.mem_map.mp hb
+    rw [← e1, ← e2]
+    exact hbound r' hr' b' hb'
+  · simp only [List.length_map]
+    have : s.base.toList.length = s.base.size := by simp
+    rw [this]; exact hsize
 
 /-- in a full selector the first cell is the smallest kept coin (what `submit` compares against) -/
 theorem topK_root_min (k : Nat) (a : Array Coin) (h : HeapFrom k a 0) : ∀ i, i < k → amtAt a 0 ≤ amtAt a i :=
